@@ -368,17 +368,30 @@ func (c *compiler) compile(tok *token) []instruction {
 			value := values[i]
 			res = append(res, c.compile(value)...)
 
-			code := codeGlobalSet
-			var idx int
-			if c.isLocal() {
-				code = codeLocalSet
-				idx = c.Shadow(key)
-			} else {
-				lookup := c.Globals
-				key = c.expPrefix(key)
-				idx = lookup.Index(key)
+			// a constant declared with a type is converted to it; one declared without
+			// stays as it is (an untyped constant), so that every later use converts it
+			// to the type it is used at, e.g. the declared type of a parameter
+			typed := len(target.Tokens) > 0
+			if typed {
+				typ := typeFromToken(c, target.Tokens[0])
+				if slices.Contains([]Type{TypeUint8, TypeInt8, TypeUint32, TypeInt32, TypeFloat64}, typ) {
+					res = append(res, instruction{Code: codeCast, A: reg(typ)})
+				}
 			}
-			res = append(res, instruction{Code: code, A: reg(idx)})
+			if c.isLocal() {
+				idx := c.Shadow(key)
+				if !typed {
+					res = append(res, instruction{Code: codeLocalZero, A: reg(idx), B: reg(untypedInt)})
+				}
+				res = append(res, instruction{Code: codeLocalSet, A: reg(idx)})
+			} else {
+				idx := c.Globals.Index(c.expPrefix(key))
+				raw := 0
+				if !typed {
+					raw = 1
+				}
+				res = append(res, instruction{Code: codeGlobalSet, A: reg(idx), B: reg(raw)})
+			}
 		}
 	case ":=", "var":
 		values := c.compile(tok.Tokens[1])
